@@ -72,6 +72,16 @@ CLAIMED = {
             'four known findings (operators inside FROM, collation order of Numeric/Printable ranges, serial FROMs, FROM inside outer set '
             'operations); contained subtypes not modelled; cstrings that are also tstrings are lexed as TIME values (kept out of the sweep, C07)',
             'Coq proof (induction over set operations) + translated tables + differential correspondence'),
+    'C17': ('proof',
+            'Invariant theorem over EVERY sequence of slice / reset_context operations on EVERY source: the remaining input is the '
+            'substring at the recorded offset, offset within the input, line = 1 + line breaks before the offset, context start <= '
+            'offset with a consistent line; hence Display, contextualize and the structured report agree on the line. Hand model of '
+            'input.rs tied by correspondence through a hook (all intermediate states). The location clause (position inside the first '
+            'malformed definition) is decided by the search: single-token deletion / replacement / insertion in generated modules, '
+            'LF/CRLF, comments, literal and file sources; Spec oracle evaluated in Coq on the reported numbers',
+            '§6 C17',
+            'partial: the location clause depends on the whole nom grammar and is search-only; columns are not part of the property',
+            'Coq proof (invariant by induction over operations) + differential correspondence + corruption search'),
 }
 NOT_YET = 'check not built yet in this session (planned, see DESIGN.md §6); not claimed until its proof and correspondence run'
 
